@@ -105,6 +105,8 @@ impl Fmt {
     pub fn max_row(&self) -> u32 {
         match self {
             Fmt::Xls => 65535,
+            // OpenDocument has no row limit (office suites stop at 2^20 rows, the format does not)
+            Fmt::Ods => 3_000_000,
             _ => 1_048_575,
         }
     }
